@@ -106,9 +106,8 @@ def run(ctx):
     core.run_stage(ctx, "escape-strings", cases, obs_pre, "PreprocessTrace", cfg="PreprocessTrace.cfg", sig_keys=(),
                    nontrivial=lambda c: tuple(c["cps"]))
     # (c) end to end variants
-    texts = [(t, ts) for t, ts in corpus_texts()]
-    if ctx.quick:
-        texts = texts[ctx.seed % 4::4]
+    from .c15 import corpus_sample
+    texts = list(corpus_sample(ctx.quick, ctx.seed, 4))
     texts += [(t, (2018, 3, 7, 12, 43)) for t in ["tomorrow 8pm", "monday 9-5", "5.3.2021 9:00 - 10:30", "next friday at noon",
                                                    "3 days", "31.12. 23:59", "call mom tomorrow 8pm"]]
     # every grammar production with letters in it (am/pm markers, weekday, month, part-of-day and unit words ...)
